@@ -1,8 +1,543 @@
 /-
 C08 — trajectory operations have their documented effect and keep all views consistent.
-(placeholder while the correspondence is brought up; theorems follow)
+
+Property theorems about `Evo.Traj` (`Model/Traj.lean`): the *cache machine* (the object as
+`trajectory.py` implements it: three lazily filled caches, stamps, the projected flag) refines the
+*abstract trajectory* (a list of poses with optional stamps) over every operation history, with
+reads interleaved anywhere; every operation has its documented effect on the abstract trajectory;
+every operation maps proper rigid poses to proper rigid poses, so `check()` passes.
+Helper lemmas: `Lemmas/Traj.lean`.
 -/
-import EvoModel.Model.Traj
+import EvoModel.Lemmas.Traj
 namespace Evo.C08
 open Evo Evo.Traj
+
+/-! ### consistent views: the invariant and its preservation -/
+
+/-- every present cache is the view of the abstract trajectory, so any two present caches and the
+stamps have the same number of entries -/
+theorem inv_same_count {s : St} {a : ATraj} (h : Inv s a) :
+    (∀ l, s.pos? = some l → l.length = a.items.length) ∧
+    (∀ l, s.quat? = some l → l.length = a.items.length) ∧
+    (∀ l, s.se3? = some l → l.length = a.items.length) ∧
+    (∀ l, s.stamps = some l → l.length = a.items.length) ∧
+    s.numPoses = a.items.length := by
+  refine ⟨?_, ?_, ?_, ?_, h.numPoses⟩
+  · intro l hl; rw [h.pos l hl]; simp
+  · intro l hl; rw [h.quat l hl]; simp
+  · intro l hl; rw [h.se3 l hl]; simp
+  · intro l hl
+    have := congrArg List.length (h.stamps l hl)
+    simpa [stampsOf] using this.symm
+
+/-- `PosePath3D(poses_se3=…)` / `PoseTrajectory3D(poses_se3=…, timestamps=…)` -/
+theorem inv_init_from_se3 (ps : List P) (st : Option (List Rat))
+    (hl : ∀ l, st = some l → l.length = ps.length) :
+    Inv (initSe3 ps st) (ATraj.init ps st) := by
+  obtain ⟨hp, hs⟩ := mkItems_views ps st hl
+  refine ⟨?_, ?_, ?_, Or.inl rfl, rfl, ?_, rfl⟩
+  · intro l h; simp [initSe3] at h
+  · intro l h; simp [initSe3] at h
+  · intro l h; simp only [initSe3] at h; rw [← Option.some.inj h]; exact hp.symm
+  · intro l h; exact hs l h
+
+/-- `PosePath3D(positions_xyz=…, orientations_quat_wxyz=…)`: the abstract poses are
+`se3(R(qᵢ), xyzᵢ)` -/
+theorem inv_init_from_pos_quat (xyz : List (V3 Rat)) (rots : List (M3 Rat)) (st : Option (List Rat))
+    (hq : rots.length = xyz.length) (hl : ∀ l, st = some l → l.length = xyz.length) :
+    Inv (initPosQuat xyz rots st) (ATraj.init (List.zipWith se3Of rots xyz) st) := by
+  have hlen : (List.zipWith se3Of rots xyz).length = xyz.length := by simp [hq]
+  obtain ⟨hp, hs⟩ := mkItems_views (List.zipWith se3Of rots xyz) st (fun l h => by rw [hlen]; exact hl l h)
+  have ht : (List.zipWith se3Of rots xyz).map (·.t) = xyz := by
+    clear hp hs hlen hl
+    induction rots generalizing xyz with
+    | nil => cases xyz <;> simp_all
+    | cons r rs ih =>
+        cases xyz with
+        | nil => simp at hq
+        | cons x xs => simp [se3Of, ih xs (by simpa using hq)]
+  have hr : (List.zipWith se3Of rots xyz).map (·.rot) = rots := by
+    clear hp hs hlen hl ht
+    induction rots generalizing xyz with
+    | nil => simp
+    | cons r rs ih =>
+        cases xyz with
+        | nil => simp at hq
+        | cons x xs => simp [se3Of, ih xs (by simpa using hq)]
+  refine ⟨?_, ?_, ?_, Or.inr ⟨rfl, rfl⟩, rfl, ?_, rfl⟩
+  · intro l h; simp only [initPosQuat] at h; rw [← Option.some.inj h]
+    show xyz = (poses (mkItems _ st)).map _; rw [hp, ht]
+  · intro l h; simp only [initPosQuat] at h; rw [← Option.some.inj h]
+    show rots = (poses (mkItems _ st)).map _; rw [hp, hr]
+  · intro l h; simp [initPosQuat] at h
+  · intro l h; exact hs l h
+
+/-- **one step**: whatever caches are filled, every operation (mutating, reading, checking) takes
+related states to related states and shows the same output as the abstract operation -/
+theorem step_preserves_inv {s : St} {a : ATraj} (h : Inv s a) (op : Op) :
+    Inv (step s op).1 (specStep a op).1 ∧ (step s op).2 = (specStep a op).2 := by
+  cases op with
+  | transform m T norm => exact ⟨h.transform m T norm, rfl⟩
+  | scale c => exact ⟨h.scale c, rfl⟩
+  | reduce ids => exact ⟨h.reduce ids, rfl⟩
+  | downsample n ids =>
+      simp only [step, specStep, h.numPoses]
+      split
+      · exact ⟨h, rfl⟩
+      · split
+        · exact ⟨h, rfl⟩
+        · exact ⟨h.reduce ids, rfl⟩
+  | motionFilter ids => exact ⟨h.forceSe3.reduce ids, rfl⟩
+  | crop ids =>
+      simp only [step, specStep]
+      rcases Bool.eq_false_or_eq_true a.timed with ha | ha
+      · have hs : s.stamps.isSome = true := by rw [← h.timed]; exact ha
+        rw [if_pos ha, if_pos hs]; exact ⟨h.reduce ids, rfl⟩
+      · have hs : ¬ s.stamps.isSome = true := by rw [← h.timed, ha]; simp
+        have ha' : ¬ a.timed = true := by rw [ha]; simp
+        rw [if_neg ha', if_neg hs]; exact ⟨h, rfl⟩
+  | align am r t c norm => exact ⟨h.align am r t c norm, rfl⟩
+  | alignOrigin ref norm =>
+      simp only [step, specStep, h.getSe3]
+      cases hp : poses a.items with
+      | nil => exact ⟨h, rfl⟩
+      | cons p0 r => exact ⟨h.forceSe3.transform .left _ norm, rfl⟩
+  | project nd rots =>
+      simp only [step, specStep, h.proj]
+      split
+      · exact ⟨h, rfl⟩
+      · exact ⟨h.project nd rots, rfl⟩
+  | copy => exact ⟨h, rfl⟩
+  | read v =>
+      cases v with
+      | pos => exact ⟨h.forcePos, by simp [step, specStep, St.view, ATraj.view, h.getPos]⟩
+      | quat => exact ⟨h.forceQuat, by simp [step, specStep, St.view, ATraj.view, h.getQuat]⟩
+      | se3 => exact ⟨h.forceSe3, by simp [step, specStep, St.view, ATraj.view, h.getSe3]⟩
+      | stamps => exact ⟨h, by simp [step, specStep, St.view, ATraj.view, h.stampsView]⟩
+      | num => exact ⟨h, by simp [step, specStep, St.view, ATraj.view, h.numPoses]⟩
+      | dist => exact ⟨h.forcePos, by simp [step, specStep, St.view, ATraj.view, h.getPos]⟩
+  | check =>
+      simp only [step, specStep, St.check, checkOut, h.numPoses, poses_length]
+      split
+      · exact ⟨h, rfl⟩
+      · have h3 := h.forcePos.forceQuat.forceSe3
+        refine ⟨h3, ?_⟩
+        have e1 := h3.getSe3
+        have e2 := h3.getPos
+        have e3 := h3.getQuat
+        have e4 : s.forcePos.forceQuat.forceSe3.stamps = a.stampsView := h.stampsView.symm
+        rw [e1, e2, e3, e4]
+        simp
+
+/-- **any history**: induction over arbitrary operation lists, reads interleaved anywhere -/
+theorem reachable_inv {s : St} {a : ATraj} (h : Inv s a) (ops : List Op) :
+    Inv (run s ops).1 (specRun a ops).1 ∧ (run s ops).2 = (specRun a ops).2 := by
+  induction ops generalizing s a with
+  | nil => exact ⟨h, rfl⟩
+  | cons op r ih =>
+      obtain ⟨h1, e1⟩ := step_preserves_inv h op
+      obtain ⟨h2, e2⟩ := ih h1
+      simp only [run, specRun]
+      exact ⟨h2, by rw [e1, e2]⟩
+
+/-- **reads refine the spec**: whatever was cached or read before, a read of any view after any
+history returns the view of the abstract trajectory `spec(history)` -/
+theorem read_refines_spec {s : St} {a : ATraj} (h : Inv s a) (ops : List Op) (v : View) :
+    (step (run s ops).1 (.read v)).2 = (specRun a ops).1.view v :=
+  (step_preserves_inv (reachable_inv h ops).1 (.read v)).2
+
+/-- positions, rotations (quaternions) and matrices read after any history describe the same poses
+and have the same count; timestamps too when present -/
+theorem views_describe_same_poses {s : St} {a : ATraj} (h : Inv s a) (ops : List Op) :
+    let s' := (run s ops).1
+    let a' := (specRun a ops).1
+    (s'.view .se3).2 = .poses (poses a'.items) ∧
+    (s'.view .pos).2 = .vecs ((poses a'.items).map (·.t)) ∧
+    (s'.view .quat).2 = .rots ((poses a'.items).map (·.rot)) ∧
+    (s'.view .num).2 = .num (poses a'.items).length ∧
+    (∀ l, (s'.view .stamps).2 = .stamps (some l) → l.length = (poses a'.items).length) := by
+  intro s' a'
+  have hi : Inv s' a' := (reachable_inv h ops).1
+  refine ⟨?_, ?_, ?_, ?_, ?_⟩
+  · simp [St.view, hi.getSe3]
+  · simp [St.view, hi.getPos]
+  · simp [St.view, hi.getQuat]
+  · simp [St.view, hi.numPoses]
+  · intro l hl
+    simp only [St.view, Out.stamps.injEq] at hl
+    simpa using (inv_same_count hi).2.2.2.1 l hl
+
+/-- path length, accumulated distances and speeds are functions of the step lengths between
+consecutive positions: the machine's `distances` read equals them computed on the abstract poses -/
+theorem derived_quantities {s : St} {a : ATraj} (h : Inv s a) (ops : List Op) :
+    (step (run s ops).1 (.read .dist)).2
+      = .rats (segSq ((poses (specRun a ops).1.items).map (·.t))) :=
+  read_refines_spec h ops .dist
+
+/-! ### documented effect of each operation (on the abstract trajectory) -/
+
+theorem spec_transform_poses (a : ATraj) (m : Mode) (T : P) (norm : Option Rat) :
+    poses (specStep a (.transform m T norm)).1.items = transformFull m T norm (poses a.items) ∧
+    stampsOf (specStep a (.transform m T norm)).1.items = stampsOf a.items := by
+  have hl : (transformFull m T norm (poses a.items)).length = a.items.length := by
+    rw [transformFull_length]; simp
+  exact ⟨poses_onPoses _ _ hl, stampsOf_onPoses _ _ hl⟩
+
+/-- left multiplication by an SE(3) matrix maps every pose `P` to `T·P`; stamps untouched -/
+theorem transformL_effect (a : ATraj) (T : P) :
+    poses (specStep a (.transform .left T none)).1.items = (poses a.items).map (fun p => T.mul p) ∧
+    stampsOf (specStep a (.transform .left T none)).1.items = stampsOf a.items :=
+  spec_transform_poses a .left T none
+
+/-- right multiplication maps every pose `P` to `P·T` -/
+theorem transformR_effect (a : ATraj) (T : P) :
+    poses (specStep a (.transform .right T none)).1.items = (poses a.items).map (fun p => p.mul T) ∧
+    stampsOf (specStep a (.transform .right T none)).1.items = stampsOf a.items :=
+  spec_transform_poses a .right T none
+
+/-- propagation keeps the count and the first pose and replaces every relative motion
+`Dᵢ = Pᵢ⁻¹·Pᵢ₊₁` by `Dᵢ·T` (rigid poses, rigid `T`) -/
+theorem transformProp_effect (a : ATraj) (T : P) (hT : Proper T) (hp : ∀ p ∈ poses a.items, Proper p) :
+    let new := poses (specStep a (.transform .prop T none)).1.items
+    new.length = (poses a.items).length ∧
+    new.head? = (poses a.items).head? ∧
+    relsOf new = (relsOf (poses a.items)).map (fun d => d.mul T) := by
+  intro new
+  have e : new = transformFull .prop T none (poses a.items) := (spec_transform_poses a .prop T none).1
+  rw [e]
+  refine ⟨transformFull_length _ _ _ _, ?_, ?_⟩
+  · cases hps : poses a.items with
+    | nil => rfl
+    | cons p0 r =>
+        obtain ⟨tl, htl⟩ := propagate_head p0 ((relsOf (p0 :: r)).map (fun d => d.mul T))
+        simp [transformFull, transformPoses, htl]
+  · cases hps : poses a.items with
+    | nil => rfl
+    | cons p0 r =>
+        rw [hps] at hp
+        simp only [transformFull, transformPoses]
+        apply relsOf_propagate (hp p0 (by simp))
+        intro d hd
+        obtain ⟨d0, hd0, rfl⟩ := List.mem_map.mp hd
+        exact Proper.mul (relsOf_mem_proper hp d0 hd0) hT
+
+/-- scaling multiplies the positions only -/
+theorem scale_effect (a : ATraj) (c : Rat) :
+    let new := poses (specStep a (.scale c)).1.items
+    new.map (·.t) = (poses a.items).map (fun p => V3.smul c p.t) ∧
+    new.map (·.rot) = (poses a.items).map (·.rot) ∧
+    stampsOf (specStep a (.scale c)).1.items = stampsOf a.items := by
+  intro new
+  have hl : ((List.map (scalePose c)) (poses a.items)).length = a.items.length := by simp
+  have e : new = (poses a.items).map (scalePose c) := poses_onPoses _ _ hl
+  refine ⟨?_, ?_, stampsOf_onPoses _ _ hl⟩
+  · rw [e]; simp [List.map_map, Function.comp_def, scalePose]
+  · rw [e]; simp [List.map_map, Function.comp_def, scalePose]
+
+/-- a similarity `T = [sR t; 0 1]` applied from the left maps positions by `s·R·p + t` and
+orientations by `R` (the Sim(3) normalisation divides the rotation block by the scale `s`, which
+the model receives as the parameter `norm`) -/
+theorem similarity_effect (a : ATraj) (R : M3 Rat) (t : V3 Rat) (s : Rat) (hs : s ≠ 0) :
+    poses (specStep a (.transform .left (Pose.sim3 R t s) (some s))).1.items
+      = (poses a.items).map (fun p => ⟨R.mul p.rot, V3.add (V3.smul s (R.mulVec p.t)) t⟩) := by
+  rw [(spec_transform_poses a .left _ _).1]
+  simp only [transformFull, normalise, transformPoses, List.map_map]
+  apply List.map_congr_left
+  intro p _
+  simp only [Function.comp, unscale, Pose.mul, Pose.sim3]
+  rw [smul_mul_left, unscale_smul s hs]
+  congr 1
+  ext <;> lin_unfold <;> ring
+
+/-- `align()` with the Umeyama triple `(R, t, c)` and scale correction maps positions by
+`c·R·p + t` and orientations by `R` -/
+theorem align_effect (a : ATraj) (R : M3 Rat) (t : V3 Rat) (c : Rat) :
+    poses (specStep a (.align .withScale R t c none)).1.items
+      = (poses a.items).map (fun p => ⟨R.mul p.rot, V3.add (V3.smul c (R.mulVec p.t)) t⟩) := by
+  have hl1 : ((List.map (scalePose c)) (poses a.items)).length = a.items.length := by simp
+  have e1 := poses_onPoses (List.map (scalePose c)) a.items hl1
+  have hl2 : (transformFull .left (se3Of R t) none (poses (onPoses (List.map (scalePose c)) a.items))).length
+      = (onPoses (List.map (scalePose c)) a.items).length := by
+    rw [transformFull_length]; simp
+  have e2 := poses_onPoses (transformFull .left (se3Of R t) none) _ hl2
+  simp only [specStep, alignItems]
+  rw [e2, e1]
+  simp only [transformFull, transformPoses, List.map_map]
+  apply List.map_congr_left
+  intro p _
+  simp only [Function.comp, scalePose, Pose.mul, se3Of]
+  congr 1
+  ext <;> lin_unfold <;> ring
+
+/-- index reduction (also the effect of down-sampling, motion filtering and time cropping once
+the ids are chosen): the `k`-th remaining item is item `ids[k]` of the original, pose and stamp -/
+theorem reduce_effect (a : ATraj) (ids : List Nat) (hv : ∀ i ∈ ids, i < a.items.length) :
+    let new := (specStep a (.reduce ids)).1.items
+    new.length = ids.length ∧
+    ∀ k (hk : k < ids.length), new[k]? = a.items[ids[k]]? := by
+  intro new
+  have e : new = reduceIds a.items ids := rfl
+  have key : ∀ (ids : List Nat), (∀ i ∈ ids, i < a.items.length) →
+      (reduceIds a.items ids).length = ids.length ∧
+      ∀ k (hk : k < ids.length), (reduceIds a.items ids)[k]? = a.items[ids[k]]? := by
+    intro ids
+    induction ids with
+    | nil => intro _; exact ⟨rfl, fun k hk => by simp at hk⟩
+    | cons i r ih =>
+        intro hv
+        have hi : i < a.items.length := hv i (by simp)
+        obtain ⟨l1, l2⟩ := ih (fun j hj => hv j (List.mem_cons_of_mem _ hj))
+        have hc : reduceIds a.items (i :: r) = a.items[i] :: reduceIds a.items r := by
+          simp [reduceIds, List.getElem?_eq_getElem hi]
+        rw [hc]
+        refine ⟨by simp [l1], ?_⟩
+        intro k hk
+        cases k with
+        | zero => simp [List.getElem?_eq_getElem hi]
+        | succ k' => simpa using l2 k' (by simpa using hk)
+  rw [e]; exact key ids hv
+
+/-- projection happens at most once: a second call is refused and changes nothing; the first one
+zeroes the coordinate normal to the plane and installs the planar rotations -/
+theorem project_effect (a : ATraj) (nd : Nat) (rots : List (M3 Rat)) :
+    (a.projected = true → specStep a (.project nd rots) = (a, .err)) ∧
+    (a.projected = false →
+      (specStep a (.project nd rots)).1.projected = true ∧
+      poses (specStep a (.project nd rots)).1.items = projPoses nd rots (poses a.items)) := by
+  constructor
+  · intro h; simp [specStep, h]
+  · intro h
+    have hl : (projPoses nd rots (poses a.items)).length = a.items.length := by
+      rw [projPoses_length]; simp
+    simp only [specStep, h]
+    exact ⟨rfl, poses_onPoses _ _ hl⟩
+
+/-- copying, reading and checking leave the abstract trajectory as it is -/
+theorem copy_read_check_effect (a : ATraj) (v : View) :
+    (specStep a .copy).1 = a ∧ (specStep a (.read v)).1 = a ∧ (specStep a .check).1 = a :=
+  ⟨rfl, rfl, rfl⟩
+
+/-! ### every pose remains a valid rigid-body pose -/
+
+/-- admissible operation parameters: SE(3) matrices are proper rigid; a Sim(3) matrix is
+`sim3(R, t, s)` with a proper rotation and the non-zero scale handed to the normalisation;
+alignment rotations and projected rotations are proper -/
+def GoodOp : Op → Prop
+  | .transform _ T none => Proper T
+  | .transform _ T (some s) => s ≠ 0 ∧ ∃ R t, IsRot R ∧ T = Pose.sim3 R t s
+  | .align _ r _ _ none => IsRot r
+  | .align _ _ _ _ (some _) => False
+  | .alignOrigin ref none => Proper ref
+  | .alignOrigin _ (some _) => False
+  | .project _ rots => ∀ q ∈ rots, IsRot q
+  | _ => True
+
+theorem transformFull_proper {m : Mode} {T : P} {norm : Option Rat} {ps : List P}
+    (hg : GoodOp (.transform m T norm)) (hp : ∀ p ∈ ps, Proper p) :
+    ∀ p ∈ transformFull m T norm ps, Proper p := by
+  cases norm with
+  | none =>
+      have hT : Proper T := hg
+      cases m with
+      | left =>
+          intro p h
+          simp only [transformFull, transformPoses, List.mem_map] at h
+          obtain ⟨q, hq, rfl⟩ := h
+          exact Proper.mul hT (hp q hq)
+      | right =>
+          intro p h
+          simp only [transformFull, transformPoses, List.mem_map] at h
+          obtain ⟨q, hq, rfl⟩ := h
+          exact Proper.mul (hp q hq) hT
+      | prop =>
+          cases ps with
+          | nil => intro p h; simp [transformFull, transformPoses] at h
+          | cons p0 r =>
+              simp only [transformFull, transformPoses]
+              apply propagate_proper (hp p0 (by simp))
+              intro d hd
+              obtain ⟨d0, hd0, rfl⟩ := List.mem_map.mp hd
+              exact Proper.mul (relsOf_mem_proper hp d0 hd0) hT
+  | some s =>
+      obtain ⟨hs, R, t, hR, rfl⟩ := hg
+      cases m with
+      | left =>
+          intro p h
+          simp only [transformFull, normalise, transformPoses, List.map_map, List.mem_map] at h
+          obtain ⟨q, hq, rfl⟩ := h
+          simp only [Function.comp, Proper, unscale, Pose.mul, Pose.sim3]
+          rw [smul_mul_left, unscale_smul s hs]
+          exact IsRot.mul hR (hp q hq)
+      | right =>
+          intro p h
+          simp only [transformFull, normalise, transformPoses, List.map_map, List.mem_map] at h
+          obtain ⟨q, hq, rfl⟩ := h
+          simp only [Function.comp, Proper, unscale, Pose.mul, Pose.sim3]
+          rw [smul_mul_right, unscale_smul s hs]
+          exact IsRot.mul (hp q hq) hR
+      | prop =>
+          cases ps with
+          | nil => intro p h; simp [transformFull, transformPoses, normalise, unscalePow] at h
+          | cons p0 r =>
+              simp only [transformFull, transformPoses, normalise]
+              apply unscalePow_propagate_proper s hs 0 p0 p0.rot (hp p0 (by simp))
+              · rw [pow_zero, one_smul']
+              · intro d hd
+                obtain ⟨d0, hd0, rfl⟩ := List.mem_map.mp hd
+                refine ⟨d0.rot.mul R, IsRot.mul (relsOf_mem_proper hp d0 hd0) hR, ?_⟩
+                simp only [Pose.mul, Pose.sim3]
+                rw [smul_mul_right]
+
+theorem onPoses_proper {f : List P → List P} {l : List Item} (hf : (f (poses l)).length = l.length)
+    (h : ∀ p ∈ f (poses l), Proper p) : ∀ p ∈ poses (onPoses f l), Proper p := by
+  rw [poses_onPoses f l hf]; exact h
+
+/-- **rigid poses stay rigid**: every operation with admissible parameters maps a trajectory of
+proper rigid poses to one of proper rigid poses — including left/right/propagating
+multiplication by a Sim(3) matrix (fix 91a1eaa), given its scale -/
+theorem rigid_preserved (a : ATraj) (op : Op) (hg : GoodOp op) (hp : ∀ p ∈ poses a.items, Proper p) :
+    ∀ p ∈ poses (specStep a op).1.items, Proper p := by
+  have hred : ∀ ids, ∀ p ∈ poses (reduceIds a.items ids), Proper p := by
+    intro ids p h
+    simp only [poses] at h
+    rw [← reduceIds_map] at h
+    exact hp p (mem_reduceIds h)
+  have hsc : ∀ c, ∀ p ∈ poses (onPoses (List.map (scalePose c)) a.items), Proper p := by
+    intro c
+    apply onPoses_proper (by simp)
+    intro p h
+    obtain ⟨q, hq, rfl⟩ := List.mem_map.mp h
+    exact hp q hq
+  cases op with
+  | transform m T norm =>
+      apply onPoses_proper (by rw [transformFull_length]; simp)
+      exact transformFull_proper hg hp
+  | scale c => exact hsc c
+  | reduce ids => exact hred ids
+  | downsample n ids =>
+      simp only [specStep]
+      split
+      · exact hp
+      · split
+        · exact hp
+        · exact hred ids
+  | motionFilter ids => exact hred ids
+  | crop ids =>
+      simp only [specStep]
+      split
+      · exact hred ids
+      · exact hp
+  | align am r t c norm =>
+      cases norm with
+      | some _ => exact absurd hg id
+      | none =>
+          have hr : IsRot r := hg
+          have hT : GoodOp (.transform .left (se3Of r t) none) := hr
+          cases am with
+          | onlyScale => exact hsc c
+          | rigid =>
+              apply onPoses_proper (by rw [transformFull_length]; simp)
+              exact transformFull_proper hT hp
+          | withScale =>
+              simp only [specStep, alignItems]
+              apply onPoses_proper (by rw [transformFull_length]; simp)
+              exact transformFull_proper hT (hsc c)
+  | alignOrigin ref norm =>
+      cases norm with
+      | some _ => exact absurd hg id
+      | none =>
+          have hr : Proper ref := hg
+          simp only [specStep]
+          cases hps : poses a.items with
+          | nil => simp [hps]
+          | cons p0 r =>
+              simp only
+              apply onPoses_proper (by rw [transformFull_length]; simp)
+              have hT : GoodOp (.transform .left (originTransform ref p0) none) :=
+                Proper.mul hr (Proper.inv (hp p0 (by simp [hps])))
+              exact transformFull_proper hT hp
+  | project nd rots =>
+      simp only [specStep]
+      split
+      · exact hp
+      · apply onPoses_proper (by rw [projPoses_length]; simp)
+        exact projPoses_proper hg hp
+  | copy => exact hp
+  | read v => exact hp
+  | check => exact hp
+
+/-- rigidity over whole histories -/
+theorem rigid_preserved_run (a : ATraj) (ops : List Op) (hg : ∀ op ∈ ops, GoodOp op)
+    (hp : ∀ p ∈ poses a.items, Proper p) : ∀ p ∈ poses (specRun a ops).1.items, Proper p := by
+  induction ops generalizing a with
+  | nil => exact hp
+  | cons op r ih =>
+      simp only [specRun]
+      exact ih _ (fun o ho => hg o (List.mem_cons_of_mem _ ho)) (rigid_preserved a op (hg op (by simp)) hp)
+
+/-- **evo's own validity check passes**: after any history of admissible operations on an object
+built from proper rigid poses, `check()` (whatever is cached at that moment) reports equal
+lengths and valid SE(3) matrices with residual zero; its time-stamp verdict is the one of the
+abstract stamps -/
+theorem check_passes {s : St} {a : ATraj} (h : Inv s a) (ops : List Op) (hg : ∀ op ∈ ops, GoodOp op)
+    (hp : ∀ p ∈ poses a.items, Proper p) :
+    ∃ b, (step (run s ops).1 .check).2 = .chk true true 0 b := by
+  have hi := (reachable_inv h ops).1
+  have hr := rigid_preserved_run a ops hg hp
+  rw [(step_preserves_inv hi .check).2]
+  simp only [specStep, checkOut]
+  split
+  · exact ⟨true, rfl⟩
+  · have hall : (poses (specRun a ops).1.items).all (fun p => properRot p.rot) = true := by
+      rw [List.all_eq_true]
+      intro p hpm
+      exact properRot_true (hr p hpm)
+    rw [maxResid_zero hr, hall]
+    exact ⟨_, rfl⟩
+
+/-- the pre-repair behaviour (finding F7): without the normalisation a Sim(3) argument of scale 2
+leaves a pose matrix that is not rigid -/
+theorem sim3_transform_not_rigid_without_normalisation :
+    ∃ (T p : P), Proper p ∧ ¬ Proper (T.mul p) :=
+  ⟨Pose.sim3 M3.one V3.zero 2, Pose.one, ⟨IsOrtho.one, by decide +kernel⟩, by
+    intro h
+    have := h.2
+    revert this
+    decide +kernel⟩
+
+/-! ### non-vacuity: concrete instances -/
+
+def rz : M3 Rat := ⟨0, -1, 0, 1, 0, 0, 0, 0, 1⟩
+def p1 : P := ⟨rz, ⟨1, 2, 3⟩⟩
+def p2 : P := ⟨M3.one, ⟨4, 5, 6⟩⟩
+def p3 : P := ⟨rz, ⟨7, 7, 0⟩⟩
+def T0 : P := ⟨rz, ⟨1, 0, -1⟩⟩
+
+example : IsRot rz := ⟨by unfold IsOrtho; decide +kernel, by decide +kernel⟩
+example : Inv (initSe3 [p1, p2, p3] (some [0, 1, 2])) (ATraj.init [p1, p2, p3] (some [0, 1, 2])) :=
+  inv_init_from_se3 _ _ (by intro l h; cases h; rfl)
+example : Inv (initPosQuat [⟨1, 2, 3⟩, ⟨4, 5, 6⟩] [rz, M3.one] none)
+    (ATraj.init (List.zipWith se3Of [rz, M3.one] [⟨1, 2, 3⟩, ⟨4, 5, 6⟩]) none) :=
+  inv_init_from_pos_quat _ _ _ rfl (by intro l h; cases h)
+
+/-- a history in which a cache is filled, the object is mutated and another view is read:
+positions cached, scaled by 2, propagated, reduced, then the matrices are read -/
+example :
+    (run (initPosQuat [⟨1, 2, 3⟩, ⟨4, 5, 6⟩, ⟨7, 7, 0⟩] [rz, M3.one, rz] (some [0, 1, 2]))
+      [.read .pos, .scale 2, .transform .prop T0 none, .reduce [0, 2], .read .se3, .read .stamps]).2
+    = [.vecs [⟨1, 2, 3⟩, ⟨4, 5, 6⟩, ⟨7, 7, 0⟩], .unit, .unit, .unit,
+       .poses [⟨rz, ⟨2, 4, 6⟩⟩, ⟨⟨0, 1, 0, -1, 0, 0, 0, 0, 1⟩, ⟨4, 16, -2⟩⟩], .stamps (some [0, 2])] := by
+  decide +kernel
+
+example : GoodOp (.transform .prop T0 none) := ⟨by unfold IsOrtho; decide +kernel, by decide +kernel⟩
+example : GoodOp (.transform .left (Pose.sim3 rz ⟨1, 1, 1⟩ 2) (some 2)) :=
+  ⟨by decide, rz, ⟨1, 1, 1⟩, ⟨by unfold IsOrtho; decide +kernel, by decide +kernel⟩, rfl⟩
+/-- the Sim(3) normalisation on a concrete instance: scale 2 from the left, poses stay proper -/
+example : (specStep (ATraj.init [p1, p2] none) (.transform .left (Pose.sim3 rz ⟨1, 1, 1⟩ 2) (some 2))).1.items
+    = [(⟨⟨-1, 0, 0, 0, -1, 0, 0, 0, 1⟩, ⟨-3, 3, 7⟩⟩, none), (⟨rz, ⟨-9, 9, 13⟩⟩, none)] := by decide +kernel
+example : (step (initSe3 [p1, p2] none) .check).2 = .chk true true 0 true := by decide +kernel
+/-- second projection refused -/
+example : (run (initSe3 [p1, p2] none) [.project 2 [rz, M3.one], .project 2 [rz, M3.one], .read .pos]).2
+    = [.unit, .err, .vecs [⟨1, 2, 0⟩, ⟨4, 5, 0⟩]] := by decide +kernel
+
 end Evo.C08
